@@ -20,13 +20,25 @@ pub struct WriteAheadLogRecord {
 
 impl WriteAheadLog {
     pub fn clear(&mut self) -> Result<(), DbError> {
+        #[cfg(agdb_verif)]
+        crate::verif::fs_event(crate::verif::FsEvent::WalSetLen { len: 0 });
         Ok(self.file.set_len(0)?)
     }
 
     pub fn insert(&mut self, pos: u64, value: &[u8]) -> Result<(), DbError> {
         self.file.seek(SeekFrom::End(0))?;
+        #[cfg(agdb_verif)]
+        crate::verif::fs_event(crate::verif::FsEvent::WalWrite {
+            bytes: &pos.serialize(),
+        });
         self.file.write_all(&pos.serialize())?;
+        #[cfg(agdb_verif)]
+        crate::verif::fs_event(crate::verif::FsEvent::WalWrite {
+            bytes: &(value.len() as u64).serialize(),
+        });
         self.file.write_all(&(value.len() as u64).serialize())?;
+        #[cfg(agdb_verif)]
+        crate::verif::fs_event(crate::verif::FsEvent::WalWrite { bytes: value });
         self.file.write_all(value)?;
 
         Ok(())
@@ -107,12 +119,16 @@ impl WriteAheadLog {
 
         while pos < size {
             if Self::skip_record(&mut self.file).is_err() {
+                #[cfg(agdb_verif)]
+                crate::verif::fs_event(crate::verif::FsEvent::WalSetLen { len: pos });
                 self.file.set_len(pos)?;
                 return Ok(());
             } else {
                 let new_pos = self.file.stream_position()?;
 
                 if new_pos > size {
+                    #[cfg(agdb_verif)]
+                    crate::verif::fs_event(crate::verif::FsEvent::WalSetLen { len: pos });
                     self.file.set_len(pos)?;
                     return Ok(());
                 } else {
